@@ -16,6 +16,7 @@
 """
 import copy
 import json
+import time
 from concurrent.futures import ThreadPoolExecutor
 
 from harness.core import (MachineryError, model_check, read_events, require, run_driver, seed, spec_mutant, validate_trace,
@@ -106,6 +107,13 @@ def run(rep, tier):
     quick = tier == "quick"
     wd = work_dir("C10", "run", clean=True)
     sfx = "small" if quick else "deep"
+    t0 = time.time()
+    phases = rep.notes.setdefault("phase_wall_s", {})
+
+    def phase(name):
+        nonlocal t0
+        phases[name] = round(time.time() - t0, 1)
+        t0 = time.time()
     rep.rule = ("TLC explores the rearrangement machine from every +,* tree with <= 3 leaves over {x, y, 0, 1, 2%s} at nat and at the ring "
                 "types, hand-picked seeds with - uminus ^ Suc and truncated subtraction as an opaque atom, every conjunction / disjunction "
                 "chain over member sets of <= 3 literals (incl. true, false, complementary literals, a compound member) and negated formulas, "
@@ -131,8 +139,7 @@ def run(rep, tier):
                 ["PolyPreserved"])]
     if not quick:
         mutants += [
-            ("dedup_drops_a_member", [("C10_Rearr.tla", "\\cup (IF a = b THEN {a} ELSE {})                                                               \\* Dedup",
-                                       "\\cup {a}")], ["MembersPreserved", "TablePreserved"]),
+            ("dedup_drops_a_member", [("C10_Rearr.tla", "(IF a = b THEN {a} ELSE {})", "{a}")], ["MembersPreserved", "TablePreserved"]),
             ("de_morgan_keeps_connective", [("C10_Rearr.tla", '{ <<"or", Not(t[2][2]), Not(t[2][3])>> }', '{ <<"and", Not(t[2][2]), Not(t[2][3])>> }')],
              ["TablePreserved"]),
             ("factor_without_common_factor", [("C10_Rearr.tla", 'a[1] = "*" /\\ b[1] = "*" /\\ a[2] = b[2] THEN', 'a[1] = "*" /\\ b[1] = "*" THEN')],
@@ -148,6 +155,7 @@ def run(rep, tier):
         f3 = ex.submit(lambda: [spec_mutant(rep, n, "C10_Rearr", mut_cfg, ed, exp, wd=wd, workers=1) for n, ed, exp in mutants])
         r1, r2 = f1.result(), f2.result()
         f3.result()
+    phase("tlc_design_level")
     rep.add_mc("C10_Rearr", r1, sfx)
     rep.add_mc("C10_Terms", r2, sfx)
     for nm, r in (("C10_Rearr", r1), ("C10_Terms", r2)):
@@ -163,21 +171,27 @@ def run(rep, tier):
         rep.notes["term_universe"] = " ".join(r2.out[r2.out.find('<< "terms"'):].split(">>")[0].replace("<<", "").split())
     # ---- spec -> code: one driver process (theories loaded once), forked workers
     allp = wd / "events.ndjson"
-    arith_mod, int_mod, comb_mod, nrand = (2, 4, 2, 60) if quick else (1, 2, 1, 1500)
+    arith_mod, int_mod, comb_mod, nrand = (3, 2, 3, 40) if quick else (4, 2, 1, 1200)
     p, _ = run_driver("c10", ["all", dump_file, vec, allp, 3 if quick else 4, arith_mod, int_mod, comb_mod, nrand, seed()], timeout=6000)
     rep.notes["driver"] = p.stdout.strip().splitlines()[-5:]
-    evs = read_events(allp)
-    require(len(evs) < SELF_BASE, "C10: tid ranges overlap")
-    # every state of the machine that was selected for replay came back as events (binding of the dump reader)
-    m_states = [ln for ln in p.stdout.splitlines() if ln.startswith("norm:")]
-    require(m_states and int(m_states[0].split()[1]) == r1.distinct, "C10: the dump reader saw %s, TLC found %d distinct states" % (m_states, r1.distinct))
-    # ---- code -> spec: one validation run over everything + corrupted copies (self-test)
-    bad = _corrupted(evs)
-    need = {"OwnError", "LhsIsInput", "IsEquation", "HypsFromConds", "Checked", "EvalSame", "ValuePreserved?", "Idempotent", "Canonical?"}
-    require(need <= {c for _, c in bad}, "C10: self-test events could not be built for %s" % sorted(need - {c for _, c in bad}))
-    write_events(wd / "all.ndjson", evs + [c for c, _ in bad])
-    v = validate_trace(TSPEC, wd / "all.ndjson", wd=wd / "tv", nchunks=3 if quick else 8, timeout=6000)
-    flagged = {f["tid"]: set(f["fail"]) for f in v["fails"]}
+    phase("driver")
+    # ---- code -> spec: the validation of the events (3 JVMs) runs while Python reads them; the corrupted copies (binding
+    #      self-test) are validated by a fourth run
+    with ThreadPoolExecutor(max_workers=2) as ex:
+        fv = ex.submit(validate_trace, TSPEC, allp, wd=wd / "tv", nchunks=3 if quick else 8, timeout=6000)
+        evs = read_events(allp)
+        require(len(evs) < SELF_BASE, "C10: tid ranges overlap")
+        # every state of the machine came back from the dump reader (binding of the dump reader)
+        m_states = [ln for ln in p.stdout.splitlines() if ln.startswith("norm:")]
+        require(m_states and int(m_states[0].split()[1]) == r1.distinct, "C10: the dump reader saw %s, TLC found %d distinct states" % (m_states, r1.distinct))
+        bad = _corrupted(evs)
+        need = {"OwnError", "LhsIsInput", "IsEquation", "HypsFromConds", "Checked", "EvalSame", "ValuePreserved?", "Idempotent", "Canonical?"}
+        require(need <= {c for _, c in bad}, "C10: self-test events could not be built for %s" % sorted(need - {c for _, c in bad}))
+        write_events(wd / "selftest.ndjson", [c for c, _ in bad])
+        vs = validate_trace(TSPEC, wd / "selftest.ndjson", wd=wd / "tv_self", nchunks=1, timeout=3000)
+        v = fv.result()
+    phase("tlc_trace_validation")
+    flagged = {f["tid"]: set(f["fail"]) for f in v["fails"] + vs["fails"]}
     if any("Binding" in s for s in flagged.values()):
         t = [t for t, s in flagged.items() if "Binding" in s][:3]
         raise MachineryError("C10: the driver built terms that are not the vectors (events %s)" % t)
